@@ -69,9 +69,10 @@ func alterHeader(b *types.Block, field string) {
 	case "BlocksRootHash":
 		h.BlocksRootHash = flip(h.BlocksRootHash, 32)
 	case "TxsRootHash": // the header is made to commit to the body that comes with it
+		old := h.TxsRootHash
 		h.TxsRootHash = types.CalculateTxsRootHash(b.GetBody().GetTxs())
-		if len(b.GetBody().GetTxs()) == 0 || bytes.Equal(h.TxsRootHash, b.Header.TxsRootHash) {
-			h.TxsRootHash = flip(h.TxsRootHash, 32)
+		if bytes.Equal(h.TxsRootHash, old) {
+			h.TxsRootHash = flip(old, 32)
 		}
 	case "ReceiptsRootHash":
 		h.ReceiptsRootHash = flip(h.ReceiptsRootHash, 32)
